@@ -10,6 +10,10 @@ package corr
 //                                        (1) or without (0) the transport-cc extension in its StreamInfo
 //        pkt seq=<u16> ssrc=<u32> [ext=<0|1>]   a packet of that stream (`bad-op` when not bound); ext=0: this packet
 //                                        lacks the transport-cc extension
+//        mal seq=<u16> ssrc=<u32> kind=<k>      a packet of that stream, carrying the extension, in an unusual wire form
+//                                        (c05_sender_malformed_test.go): forms the RTP header parser accepts are
+//                                        recorded like any packet; forms it rejects make the Read of a stream
+//                                        that negotiated the extension fail (`err:read`) and record nothing
 // The stream `media` is bound, with the extension, when the case starts; `pkt seq=` is a packet of it.
 // Every stream negotiates its OWN extension id (c05ExtID, a function of the SSRC) among other header
 // extensions under the remaining ids, and every packet carries other extensions under all the ids it does
@@ -17,6 +21,9 @@ package corr
 // ids: each stream is read under the id it negotiated, a stream without the extension records nothing.
 // observable: after every `adv`, for every batch the interceptor wrote to the bound RTCPWriter:
 // `write n=<k>` and the canonical `fb …` line of every packet (sender SSRC is random: masked).
+// The bound RTCPWriter may refuse chosen calls (ambient `failrtcp=`, ambient_test.go): the attempted batch is
+// printed all the same, and feedback the transport refused is lost — the interceptor logs the error and goes on —,
+// so the model has nothing to learn about which attempts failed.
 
 import (
 	"fmt"
@@ -29,6 +36,7 @@ import (
 
 	"github.com/pion/interceptor"
 	"github.com/pion/interceptor/pkg/twcc"
+	"github.com/pion/logging"
 	"github.com/pion/rtcp"
 	"github.com/pion/rtp"
 )
@@ -36,10 +44,17 @@ import (
 var c05MaskSS = regexp.MustCompile(`^fb ss=\d+ `)
 
 func c05SndCase(r *Rng, tier string, idx int) Case {
-	classes := []string{"steady", "bursty", "idle", "reorder", "ticks", "wrap", "streams", "streamsmix"}
+	classes := []string{"steady", "bursty", "idle", "reorder", "ticks", "wrap", "streams", "streamsmix", "writefail", "malformed"}
 	cl := classes[idx%len(classes)]
 	if cl == "streams" || cl == "streamsmix" {
 		return c05SndStreamsCase(r, cl)
+	}
+	if cl == "malformed" {
+		return c05SndMalformedCase(r)
+	}
+	class := cl
+	if cl == "writefail" { // ordinary traffic of one of the other classes over a transport that refuses some RTCP writes
+		cl = c05PickS(r, "steady", "bursty", "idle", "reorder", "ticks", "wrap")
 	}
 	var ops []string
 	interval := r.Pick(100, 100, 100, 50, 20, 250, 1000)
@@ -99,7 +114,38 @@ func c05SndCase(r *Rng, tier string, idx int) Case {
 	if cl == "idle" && r.Chance(1, 10) {
 		ops = append(ops, c05PickS(r, "adv us=-1", "pkt seq=65536", "adv", "tick"))
 	}
+	if class == "writefail" {
+		return Case{Class: class, Ops: c05AmbientFail(r, ops)}
+	}
 	return Case{Class: cl, Ops: c05Ambient(r, ops)}
+}
+
+// c05FailSched draws the calls of the bottom RTCP writer that fail: one, two in a row, a few scattered ones, every
+// k-th, all of them.
+func c05FailSched(r *Rng) string {
+	a := r.Range(1, 6)
+	switch r.Intn(6) {
+	case 0:
+		return fmt.Sprintf("failrtcp=%d", a)
+	case 1:
+		return fmt.Sprintf("failrtcp=%d,%d", a, a+1)
+	case 2:
+		return fmt.Sprintf("failrtcp=%d,%d,%d", a, a+r.Range(2, 4), a+r.Range(5, 12))
+	case 3:
+		return fmt.Sprintf("failrtcp=%%%d", r.Range(2, 5))
+	case 4:
+		return fmt.Sprintf("failrtcp=%d,%%%d", a, r.Range(3, 7))
+	}
+	return "failrtcp=%1"
+}
+
+// c05AmbientFail: an ambient (alone, in a one-element chain, or between neighbours) whose RTCP writer refuses
+// chosen calls.
+func c05AmbientFail(r *Rng, ops []string) []string {
+	before := c05PickS(r, "", "", "stats", "noop", "rtpfb,stats")
+	after := c05PickS(r, "", "", "stats", "noop")
+	amb := ambWith(ambOp(before, after, r.Bool(), false, r.Chance(1, 3), false), c05FailSched(r))
+	return append([]string{amb}, ops...)
 }
 
 // c05Ambient puts the sender interceptor of some cases into a chain with transparent, silent neighbours (the stats
@@ -111,7 +157,14 @@ func c05Ambient(r *Rng, ops []string) []string {
 	}
 	before := c05PickS(r, "", "stats", "stats", "noop", "rtpfb,stats")
 	after := c05PickS(r, "", "", "stats", "noop")
-	return append([]string{ambOp(before, after, true, false, r.Chance(1, 3), false)}, ops...)
+	amb := ambOp(before, after, true, false, r.Chance(1, 3), false)
+	if r.Chance(1, 3) { // the caller passes its own Attributes map (one per packet), as pion/webrtc does
+		amb = ambWith(amb, "attrs=1")
+	}
+	if r.Chance(1, 4) {
+		amb = ambWith(amb, c05FailSched(r))
+	}
+	return append([]string{amb}, ops...)
 }
 
 func c05SndRun(t *testing.T, ops []string, o *Out) {
@@ -131,7 +184,9 @@ func c05SndRun(t *testing.T, ops []string, o *Out) {
 			}
 			start = 1
 		}
-		f, err := twcc.NewSenderInterceptor(twcc.SendInterval(interval))
+		quiet := logging.NewDefaultLoggerFactory() // a refused write is logged by the interceptor: not an observable
+		quiet.DefaultLogLevel = logging.LogLevelDisabled
+		f, err := twcc.NewSenderInterceptor(twcc.SendInterval(interval), twcc.WithLoggerFactory(quiet))
 		if err != nil {
 			o.P("err:new")
 			return
@@ -148,7 +203,7 @@ func c05SndRun(t *testing.T, ops []string, o *Out) {
 			mu.Lock()
 			batches = append(batches, pkts)
 			mu.Unlock()
-			return 0, nil
+			return 0, o.RTCPWriteErr() // the transport may refuse chosen calls (ambient failrtcp=)
 		}))
 		var cur []byte
 		// an `adv` is spent lazily: inside the wrapped reader when a packet follows, else before the next op
@@ -238,6 +293,29 @@ func c05SndRun(t *testing.T, ops []string, o *Out) {
 					o.P("err:read")
 				}
 				synctest.Wait()
+			case name == "mal" && len(fs) == 4:
+				seq, ok := c05ParseU(m["seq"], 65535)
+				ssrc, ok2 := c05ParseU(m["ssrc"], 0xFFFFFFFF)
+				kind, known := c05MalKinds[m["kind"]]
+				reader := readers[uint32(ssrc)]
+				if !ok || !ok2 || !known || reader == nil {
+					spend()
+					o.P("bad-op")
+					continue
+				}
+				raw, err := c05Malformed(uint32(ssrc), rtpSeq, uint16(seq), hasTcc[uint32(ssrc)], m["kind"])
+				rtpSeq++
+				if err != nil {
+					spend()
+					o.P("err:rtp")
+					continue
+				}
+				_ = kind
+				cur = raw
+				if _, _, err := reader.Read(buf, o.Attrs(nil)); err != nil {
+					o.P("err:read")
+				}
+				synctest.Wait()
 			case name == "adv" && len(fs) == 2:
 				spend()
 				us, ok := c05ParseU(m["us"], 1<<40)
@@ -265,9 +343,9 @@ func init() {
 	register("twccsnd", &Comp{
 		N: func(tier string) int {
 			if tier == "thorough" {
-				return 6000
+				return 7200
 			}
-			return 300
+			return 360
 		},
 		Gen: c05SndCase,
 		Run: c05SndRun,
